@@ -471,6 +471,11 @@ impl EventBuffer {
 
         let ret = if T::get_type_count(&self.total.types) == max as usize {
             if let Some(record) = self.events.remove_first(T::is_type) {
+                // the discarded event may already have been written to a response that is
+                // still awaiting confirmation
+                if record.state.get() == EventState::Written {
+                    self.written.decrement(&record);
+                }
                 T::decrement_type(&mut self.total.types);
                 self.total.classes.decrement(record.class);
                 self.is_overflown = true;
